@@ -249,6 +249,9 @@ struct WorldOut {
     violations: Vec<String>,
     pools_complete: bool,
     refreshed_between_phases: bool,
+    /// a node restarted between the phases announcing the same shard count with another `msb_ignore`
+    /// (node, new msb_ignore); `None` also when its pool did not come back complete in time
+    resharded: Option<(usize, u8)>,
 }
 
 async fn run_world(w: &World) -> WorldOut {
@@ -281,7 +284,7 @@ async fn run_world(w: &World) -> WorldOut {
     let spec = ClusterSpec { nodes: w.nodes.clone(), keyspaces, cluster_name: "c12".into() };
     let cluster = MockCluster::start(spec, handler.clone()).await;
     *handler.host_ids.lock().unwrap() = cluster.nodes().iter().map(|n| n.host_id).collect();
-    let mut out = WorldOut { build_error: None, ops: vec![], conn_shards: vec![], announced: vec![], violations: vec![], pools_complete: false, refreshed_between_phases: false };
+    let mut out = WorldOut { build_error: None, ops: vec![], conn_shards: vec![], announced: vec![], violations: vec![], pools_complete: false, refreshed_between_phases: false, resharded: None };
     for (i, u) in w.up.iter().enumerate() {
         if !*u {
             cluster.stop_node(i, CloseHow::Rst);
@@ -397,6 +400,31 @@ async fn run_world(w: &World) -> WorldOut {
                 tablet_known(&session, "tks", "tt", w.tablets[ti].last, deadline).await;
                 out.announced.push(ti);
             }
+            // in a quarter of the worlds a sharded node restarts now with the same number of shards and another
+            // msb_ignore: the tokens move to other shards, requests of phase 2 must follow
+            // (per-shard pools only: there "the pool is complete again" is something the mock can see - one
+            // connection per shard; a per-host pool keeps replacing connections for a while after a restart)
+            if w.seed % 4 == 2 && w.pool.0 {
+                if let Some(i) = (0..w.nodes.len()).find(|i| w.up[*i] && w.nodes[*i].sharding.map(|s| s.nr_shards > 1).unwrap_or(false)) {
+                    let old = w.nodes[i].sharding.unwrap();
+                    let new_msb = if old.msb_ignore == 0 { 12 } else { 0 };
+                    cluster.stop_node(i, CloseHow::Rst);
+                    cluster.nodes()[i].set_sharding(Some(ShardSpec { msb_ignore: new_msb, ..old }));
+                    tokio::time::sleep(Duration::from_millis(100)).await;
+                    cluster.start_node(i).await;
+                    let (c, per_shard, wanted) = (cluster.clone(), w.pool.0, want(i));
+                    let complete = cluster
+                        .wait_until(Duration::from_secs(15), move || {
+                            let conns: Vec<_> = c.established(i).into_iter().filter(|x| !x.registered.load(Ordering::SeqCst)).collect();
+                            conns.len() >= wanted && (!per_shard || (0..old.nr_shards).all(|sh| conns.iter().any(|x| x.shard == Some(sh))))
+                        })
+                        .await;
+                    settle(cluster.log(), Duration::from_millis(150), Duration::from_secs(5), || false).await;
+                    if complete {
+                        out.resharded = Some((i, new_msb));
+                    }
+                }
+            }
             // in half of the worlds the metadata is refreshed now: what was learnt about tablets must survive it
             if w.seed % 2 == 1 {
                 let _ = tokio::time::timeout(Duration::from_secs(20), session.refresh_metadata()).await;
@@ -498,7 +526,13 @@ fn judge(o: &mut Outcome, w: &World, r: &WorldOut) {
         if let Some(sp) = w.nodes[*node].sharding {
             let owner: u16 = match tablet {
                 Some(t) => t.replicas.iter().find(|x| x.0 == *node).map(|x| x.1).unwrap_or(0),
-                None => sharding::shard_of(*token, sp.nr_shards, sp.msb_ignore) as u16,
+                None => {
+                    let msb = match r.resharded {
+                        Some((n, m)) if n == *node && *phase2 => m,
+                        _ => sp.msb_ignore,
+                    };
+                    sharding::shard_of(*token, sp.nr_shards, msb) as u16
+                }
             };
             let pool_has = r.conn_shards[*node].iter().any(|s| *s == Some(owner));
             if pool_has {
@@ -510,6 +544,9 @@ fn judge(o: &mut Outcome, w: &World, r: &WorldOut) {
                     );
                 } else {
                     o.class(&format!("{what}:owning-shard"));
+                    if *phase2 && matches!(r.resharded, Some((n, _)) if n == *node) && tablet.is_none() {
+                        o.class("owning-shard-after-restart-with-other-msb_ignore");
+                    }
                 }
             } else {
                 o.class("pool-has-no-connection-to-owning-shard(not-asserted)");
@@ -835,7 +872,7 @@ pub fn run(ctx: &Ctx) -> Outcome {
             out.require_class(c);
         }
     }
-    for c in ["strategy:simple", "strategy:nts", "preference:dc", "preference:none", "some-nodes-down", "vnode:first-attempt-at-replica", "vnode:owning-shard", "tablet:first-attempt-at-replica", "tablet:followed-after-a-metadata-refresh", "tablet:owning-shard", "first-attempt-in-preferred-dc", "unsharded-node"] {
+    for c in ["strategy:simple", "strategy:nts", "preference:dc", "preference:none", "some-nodes-down", "vnode:first-attempt-at-replica", "vnode:owning-shard", "tablet:first-attempt-at-replica", "tablet:followed-after-a-metadata-refresh", "tablet:owning-shard", "first-attempt-in-preferred-dc", "unsharded-node", "owning-shard-after-restart-with-other-msb_ignore"] {
         out.require_class(c);
     }
     out
